@@ -113,8 +113,20 @@ def structs_of(src):
 def split_statements(body):
     """top-level statements of a block: split at ';' and at the end of a top-level '{...}' block"""
     out, cur, depth, par = [], "", 0, 0
+    in_str, esc = False, False
     for ch in body:
         cur += ch
+        if in_str:                      # brackets inside string literals do not nest
+            if esc:
+                esc = False
+            elif ch == "\\":
+                esc = True
+            elif ch == '"':
+                in_str = False
+            continue
+        if ch == '"':
+            in_str = True
+            continue
         if ch in "([":
             par += 1
         elif ch in ")]":
